@@ -32,6 +32,10 @@ Proof.
   unfold s_ex. eapply get_stream_sat; [exact Hwf|]. intros s Hs Hl. apply sat_lift. unfold read_exception.
   destruct (can_read s 0 FSZ_EXCEPTION); [apply rsat_ok; exact I | apply rsat_err].
 Qed.
+Lemma s_ms_sat : sat K (fun _ => True) (s_ms e file ds).
+Proof.
+  unfold s_ms. eapply get_stream_sat; [exact Hwf|]. intros s Hs Hl. apply sat_lift, read_misc_info_rsat.
+Qed.
 Lemma s_tl_sat : sat K (fun _ => True) (s_tl p e file ds).
 Proof. unfold s_tl. stream read_thread_list_sat. Qed.
 Lemma s_ml_sat : sat K (fun _ => True) (s_ml p e file ds).
@@ -57,14 +61,24 @@ Proof.
   intros [[n c]|e|t|]; cbn [f_exp]; try (split; [intros t'|]; discriminate).
   eapply fld_rsat. apply exception_print_fixed_rsat.
 Qed.
-Lemma context_print_fixed_rsat : forall k, rsat (fun _ => True) (context_print Fixed k).
-Proof. intros k; destruct k; cbn [context_print]; apply rsat_ok; exact I. Qed.
 Lemma f_exc_fixed : forall e file si r, (forall t, f_exc Fixed e file si r <> FPan t) /\ f_exc Fixed e file si r <> FNoFuel.
 Proof.
   intros e file si [[n c]|er|t|]; cbn [f_exc]; try (split; [intros t'|]; discriminate).
   eapply fld_rsat. unfold exception_print_ctx.
   eapply rsat_bind; [apply exception_print_fixed_rsat|]. intros _ _.
   destruct (exc_kind _ _ _ _); [apply context_print_fixed_rsat | apply rsat_ok; exact I].
+Qed.
+Lemma f_tlp_fixed : forall e file si r, (forall t, f_tlp Fixed e file si r <> FPan t) /\ f_tlp Fixed e file si r <> FNoFuel.
+Proof.
+  intros e file si [raws|er|t|]; cbn [f_tlp]; try (split; [intros t'|]; discriminate).
+  eapply fld_rsat. apply threads_print_fixed_rsat.
+Qed.
+Lemma f_ms_ok : forall p r, rsat (fun _ => True) r -> (forall t, f_ms p r <> FPan t) /\ f_ms p r <> FNoFuel.
+Proof.
+  intros p r H. unfold f_ms. eapply fld_rsat with (Q := fun _ => True). unfold misc_result.
+  eapply rsat_bind; [exact H|]. intros [ver en] _. cbn [fst snd].
+  destruct (ver =? 5); [|apply rsat_ok; exact I].
+  eapply rsat_bind; [apply xstate_iter_rsat|]. intros; apply rsat_ok; exact I.
 Qed.
 Lemma f_ex_ok : forall e file si r, rsat (fun _ => True) r ->
   (forall t, f_ex e file si r <> FPan t) /\ f_ex e file si r <> FNoFuel.
@@ -84,7 +98,7 @@ Proof.
       repeat (destruct Hin as [Hin|Hin]; [inversion Hin; subst; clear Hin|]); try contradiction.
       * split; [intros t|]; discriminate.
       * eapply fld_rsat. apply (s_si_sat e file ds Hwf).
-      * eapply fld_rsat. apply (s_tl_sat p e file ds Hwf Hlen).
+      * unfold f_tl. eapply fld_rsat. apply (s_tl_sat p e file ds Hwf Hlen).
       * eapply fld_rsat. apply (s_ml_sat p e file ds Hwf Hlen).
       * eapply fld_rsat. apply (s_um_sat p e file ds Hwf Hlen).
       * eapply fld_rsat. apply (s_mem_sat p e file ds Hwf Hlen).
@@ -96,6 +110,14 @@ Proof.
       * apply f_ex_ok. apply (s_ex_sat e file ds Hwf).
       * apply f_exp_fixed.
       * apply f_exc_fixed.
+      * apply f_tlp_fixed.
+      * apply f_ms_ok. apply (s_ms_sat e file ds Hwf).
+      * unfold f_kv. eapply fld_rsat. apply raw_stream_rsat; exact Hwf.
+      * unfold f_kv. eapply fld_rsat. apply raw_stream_rsat; exact Hwf.
+      * unfold f_kv. eapply fld_rsat. apply raw_stream_rsat; exact Hwf.
+      * unfold f_kv. eapply fld_rsat. apply raw_stream_rsat; exact Hwf.
+      * unfold f_lines. eapply fld_rsat. apply raw_stream_rsat; exact Hwf.
+      * unfold f_ma. eapply fld_rsat. apply (s_mem_sat p e file ds Hwf Hlen).
     + repeat (apply Forall_app; split).
       * apply (s_tl_sat p e file ds Hwf Hlen).
       * apply (s_ml_sat p e file ds Hwf Hlen).
@@ -270,4 +292,23 @@ Lemma alloc_backed : forall (p : profile) (file : bytes), wf_bytes file -> blen 
 Proof.
   intros p file H1 H2 a H. pose proof (proj2 (run_case_fixed_total p file H1 H2)) as HF.
   rewrite Forall_forall in HF. exact (HF a H).
+Qed.
+
+(* ------------------------------------------------------------------ round 2 corollaries *)
+Lemma xstate_iter_total : forall p enabled,
+  (forall t, xstate_iter p enabled <> Pan t) /\ xstate_iter p enabled <> NoFuel /\
+  forall l, xstate_iter p enabled = Ok l -> Forall (fun i => 0 <= i < XSTATE_FEATURES) l /\ blen l <= XSTATE_FEATURES.
+Proof. intros p enabled. destruct (xstate_iter_rsat p enabled) as (H1 & H2 & H3). repeat split; try assumption; apply (H3 l H). Qed.
+Lemma thread_contexts_print_total : forall ks,
+  (forall t, threads_print Fixed ks <> Pan t) /\ threads_print Fixed ks <> NoFuel.
+Proof. intros ks. destruct (threads_print_fixed_rsat ks) as (H1 & H2 & _). tauto. Qed.
+Lemma misc_info_total : forall p e b,
+  (forall t, misc_result p (read_misc_info e b) <> Pan t) /\ misc_result p (read_misc_info e b) <> NoFuel.
+Proof.
+  intros p e b. pose proof (f_ms_ok p (read_misc_info e b) (read_misc_info_rsat e b)) as (H1 & H2).
+  unfold f_ms in *. destruct (misc_result p (read_misc_info e b)) as [a|er|t|]; cbn [fld] in *.
+  - split; [intros t|]; discriminate.
+  - split; [intros t|]; discriminate.
+  - exfalso; apply (H1 t); reflexivity.
+  - exfalso; apply H2; reflexivity.
 Qed.
